@@ -898,6 +898,17 @@ def main():
                 "blocks); both directions; send_stream_function and send_response; seeded chunk-size schedules (1 byte, whole, mixed), synchronous and pumped "
                 "delivery; one byte replaced on the line at EVERY offset of one small block (several values each) and sampled offsets of larger/multi-block "
                 "messages. distinct = distinct (direction, body length, system, chunking, fault, api); non-trivial = every case (a full ENQ/EOT/block/ACK exchange)")
+    budget = 2400 if cx.big else 600
+
+    def watchdog():
+        time.sleep(budget)
+        res.violate("c17-harness-stalled", f"the check did not finish within {budget} s: the implementation stalls (waits that ran into their "
+                    f"deadline: {STALL_LOG[-6:]})", {"stalls": STALL_LOG[-12:]})
+        res.notes.append("watchdog: harness budget used up")
+        res.dump(a.out)
+        os._exit(0)
+
+    threading.Thread(target=watchdog, daemon=True).start()
     if a.replay:
         import json
         body = json.load(open(a.replay))
